@@ -29,7 +29,7 @@ class WrongDeriv(Problem):
         E = np.zeros(shape)
         for e in self.errs:
             if e["which"] == which:
-                E[e["i"] - 1, e["j"] - 1] += 1.0 if e["mag"] == "above" else 1e-7
+                E[e["i"] - 1, e["j"] - 1] += {"above": 1.0, "aboveNeg": -1.0, "below": 1e-7}[e["mag"]]
         return E
 
     def obj(self, x):
@@ -101,7 +101,7 @@ def main():
             if v["kind"] == "running":
                 continue
             k += 1
-            if not chk.thorough and k % 2:
+            if not chk.thorough and k % 4:
                 continue
             errs = [dict(e) for e in sorted(st["cs"]["errs"], key=lambda e: (e["which"], e["i"], e["j"]))] if st["cs"]["errs"] else []
             obs = observe(st["cs"]["flags"], errs, fmts[k % 3])
@@ -120,9 +120,9 @@ def main():
                                      {"flags": st["cs"]["flags"], "wrong_entries": errs, "expected": exp, "observed": obs})
         chk.traces += chk.cases
     chk.tv(twin_groups(150 if chk.thorough else 24, chk.seed), "C19 twins")
-    chk.assumptions += ["'above' = wrong by 1.0, 'below' = wrong by 1e-7 (tolerance 1e-4); the band near the tolerance is don't-care",
+    chk.assumptions += ["'above' / 'aboveNeg' = wrong by +1.0 / -1.0, 'below' = wrong by 1e-7 (tolerance 1e-4); the band near the tolerance is don't-care",
                         "well-scaled: second derivatives O(1), so forward-difference error ~1e-8 << 1e-4"]
     return chk.finish(rule="TLC explores the check order and column loop for every set of <= 2 wrong entries x magnitude class x flag "
-                           "(804 cases); each final verdict is replayed through Solver.solve on a problem with exactly those wrong entries "
+                           "(all cases); each final verdict is replayed through Solver.solve on a problem with exactly those wrong entries "
                            "(COO/CSR/CSC) and the raised DerivError (which check, column, rows) compared; twin real solves with/without the "
                            "check on correct problems must be bit-identical (never alters the solve, no false positives)")
